@@ -579,6 +579,8 @@ CORPUS = [
     # D37: RDF, parents with falsy data_ids 0 and ''
     dict(typed=False, univ=["s:zero", "s:c1", "s:empty", "s:c2"],
          nodes=[[0, None, 0, [[1, None, None, []]]], [2, None, "", [[3, None, None, []]]]], starts="all"),
+    # a node that shares the system root's data_id: the root's definition must not be repeated (D36 through the Tree API)
+    dict(typed=False, univ=["s:a", "s:b"], nodes=[[0, None, None, [[1, None, "__root__", [[0, None, None, []]]]]]], starts="all"),
     # typed, with an empty kind and a clone of the start node below it
     dict(typed=True, univ=["s:a", "s:b", "s:c"],
          nodes=[[0, "k", None, [[1, "", None, [[0, "m", None, []], [2, "k", None, []]]]]], [2, "m", None, []]], starts="all"),
